@@ -1597,7 +1597,16 @@ impl Zeroconf {
             self.probing_handler();
 
             // check IP changes if next_ip_check is reached.
-            if now >= next_ip_check && next_ip_check > 0 {
+            if self.ip_check_interval == 0 {
+                // The check was disabled at run time. Without this, the next check
+                // would be planned for `now` again and again, waking the loop every
+                // millisecond.
+                next_ip_check = 0;
+            } else if next_ip_check == 0 {
+                // The check was enabled (again) at run time.
+                next_ip_check = now + self.ip_check_interval;
+                self.add_timer(next_ip_check);
+            } else if now >= next_ip_check {
                 next_ip_check = now + self.ip_check_interval;
                 self.add_timer(next_ip_check);
 
